@@ -48,6 +48,10 @@ CheckC06(r, o, rec, out, Tc, cues) ==
       /\ Chk(badBounds = {}, r, o, "cue_boundary_is_not_a_rounded_significant_time",
              IF badBounds = {} THEN <<>> ELSE <<cues[SetMin(badBounds)].b, cues[SetMin(badBounds)].e>>)
       /\ Chk(CuesOrdered(cues, out.fmt = "vtt" /\ out.lp = 1), r, o, "cues_overlap_or_out_of_order", <<>>)
+      \* "the cues are the intervals during which some non-blank text is visible": a cue whose payload has no line of text
+      \* (nothing, or white space and tags only) is a cue for nothing
+      /\ LET empties == {j \in 1..Len(cues) : cues[j].lines = <<>>} IN
+         Chk(empties = {}, r, o, "cue_without_any_visible_text", IF empties = {} THEN <<>> ELSE <<cues[SetMin(empties)].b>>)
       /\ \A c \in C06Clauses :
            LET b == bad(c) IN
            IF b = {} THEN TRUE ELSE Fail(r, o, c, <<SetMin(b), SlotInterval(sig, D, Tc, SetMin(b))>>)
